@@ -112,6 +112,7 @@ class Analyzer:
         self.fp80src = {}
         self.symdef = {}
         self.lowbits_canon = False
+        self.partition_ops = ()
         self.mod = mod
         self.fn = IR.materialize(fn, mod)
         self.join_threshold = join_threshold
@@ -168,6 +169,7 @@ class Analyzer:
         fn = self.fn
         self.ctrl_phis = {}
         self.loop_sig = {}
+        self.loop_reads = {}
         self.head_phis = {}
         defs = {}
         for bn, b in fn.blocks.items():
@@ -223,6 +225,14 @@ class Analyzer:
                         sig.append((i.op, d.get("line") if d else None, i.ops[0] if i.op == "call" else None,
                                     tuple(sorted(i.attrs)) if i.op in ("icmp", "fcmp") else None))
             self.loop_sig[h] = T("loop", tuple(sig))
+            reads = set()
+            for bn in body:
+                for i in fn.blocks[bn].insts:
+                    for n_ in (self._uses(i) if i.op != "phi" else [v.val for v, lab in i.ops if v.kind == "reg" and lab in body]):
+                        d_ = defs.get(n_)
+                        if d_ is None or d_[0] not in body:
+                            reads.add(n_)
+            self.loop_reads[h] = reads
             self.head_phis[h] = [i.res for i in fn.blocks[h].insts if i.op == "phi"]
 
     @staticmethod
@@ -397,6 +407,16 @@ class Analyzer:
             for x in deps:
                 d.update(x.t)
             self.symdeps[term] = d
+        if term not in self.partition and self.partition_ops and term not in st.parted:
+            from .lin import term_args as _ta
+            ta_ = _ta(term)
+            if ta_ is not None and ta_[0] in self.partition_ops:
+                a_, z_ = st.bounds[s]
+                if z_ - a_ > 4096:
+                    cases = self.classes(Lin.sym(s), a_, z_, term)
+                    if len(cases) > 1:
+                        raise Split(cases, "partition-op")
+                st.parted = st.parted | {term}
         if term in self.partition and term not in st.parted:
             a, z = st.bounds[s]
             cases = self.classes(Lin.sym(s), a, z, term)
@@ -672,14 +692,41 @@ class Analyzer:
             return [[("f", a.fsym, INF, -INF, True)]] if truth else [[("f", a.fsym, lo, hi, False)]]
         # comparison holds (ordered) -> not nan and relation; fails -> nan or negated relation
         rel = base
+
+        def withlin(r_, nanflag):
+            """float range refinement plus, when the value has an exact / sign-equivalent integer form, the same fact on it"""
+            out = [self._frel(a.fsym, lo, hi, r_, c, kind, nanflag)]
+            if nanflag:
+                return out            # the relation may fail through NaN: nothing follows for the forms
+            L = None
+            cc = None
+            if a.xlin is not None and not math.isinf(c):
+                # scale to an integer valued numerator:  xlin = N / d
+                L = Lin(a.xlin.cn, a.xlin.t, 1)
+                cc = Fraction(c) * a.xlin.d
+            elif a.slin is not None and c == 0.0:
+                L = a.slin
+                cc = Fraction(0)
+            if L is not None:
+                if r_ == "lt":
+                    out.append(("lin", L, None, cl(cc) - 1))
+                elif r_ == "le":
+                    out.append(("lin", L, None, fl(cc)))
+                elif r_ == "gt":
+                    out.append(("lin", L, fl(cc) + 1, None))
+                elif r_ == "ge":
+                    out.append(("lin", L, cl(cc), None))
+                elif r_ == "eq" and cc.denominator == 1:
+                    out.append(("lin", L, int(cc), int(cc)))
+            return out
         if ordered:
             if truth:
-                return [[self._frel(a.fsym, lo, hi, rel, c, kind, False)]]
-            return [[self._frel(a.fsym, lo, hi, self._fneg(rel), c, kind, nan)]]
+                return [withlin(rel, False)]
+            return [withlin(self._fneg(rel), nan)]
         else:
             if truth:
-                return [[self._frel(a.fsym, lo, hi, rel, c, kind, nan)]]
-            return [[self._frel(a.fsym, lo, hi, self._fneg(rel), c, kind, False)]]
+                return [withlin(rel, nan)]
+            return [withlin(self._fneg(rel), False)]
 
     @staticmethod
     def _fneg(rel):
@@ -888,9 +935,14 @@ class Analyzer:
                             for n_ in self.head_phis[s.block]:
                                 ent.append(self.vsig(s, s.env[n_])[:3] if n_ in s.env else None)
                             s.loop_entry = dict(s.loop_entry)
-                            s.loop_entry[s.block] = (tuple(ent), tuple(sorted(
-                                (n_, self.vsig(s, s.env[n_])[:3]) for n_ in self.live_after_phi[s.block]
-                                if n_ in s.env and n_ not in self.head_phis[s.block] and isinstance(s.env[n_], (IntV, PtrV)))))
+                            # loop-invariant inputs: the values (not the SSA names, which differ between inlined copies)
+                            # that the loop body reads from outside
+                            inv = []
+                            for n_ in sorted(self.loop_reads.get(s.block, ())):
+                                v_ = s.env.get(n_)
+                                if isinstance(v_, (IntV, PtrV)):
+                                    inv.append(self.vsig(s, v_)[:3])
+                            s.loop_entry[s.block] = (tuple(ent), tuple(sorted(inv, key=repr)))
                         except Infeasible:
                             continue
                     active.append(s)
@@ -2050,7 +2102,7 @@ class Analyzer:
             return False
         lo, hi = st.rng_num(xlin)
         mx = max(abs(lo), abs(hi))
-        if mx >= (1 << p):
+        if mx > (1 << p):          # every integer of magnitude <= 2^p is representable
             return False
         e = den.bit_length() - 1
         return e < (1000 if kind == "double" else 120)
